@@ -207,7 +207,7 @@ func errHandled(g *eng.Graph, call *ast.CallExpr, failOK func(*eng.GNode) bool) 
 		return false
 	}
 	infeasible := g.Infeasible(assumedNonNil)
-	reach2 := g.Reach(eng.Query{From: []*eng.GNode{node}, NoFlags: true, AvoidEdge: infeasible, AvoidNode: func(n *eng.GNode) bool { return via(n) || overwrites(n) }})
+	reach2 := g.Reach(eng.Query{From: []*eng.GNode{node}, NonNil: []types.Object{errVar}, AvoidEdge: infeasible, AvoidNode: func(n *eng.GNode) bool { return via(n) || overwrites(n) }})
 	for n := range reach2 {
 		if via(n) {
 			continue
